@@ -177,7 +177,7 @@ def run_query(db, q):
             s = Scalar(c, x, u)
             r = [pickle.loads(pickle.dumps(s)), pickle.loads(pickle.dumps(s.GetQuantity())), pickle.loads(pickle.dumps(s)).IsValid()]
         elif kind == "GetUnitName":
-            r = [db.GetUnitName(u), Scalar(c, x, u).GetUnitName()]
+            r = [db.GetUnitName(db.GetCategoryQuantityType(c), u), Scalar(c, x, u).GetUnitName()]
         elif kind == "FindUnitCase":
             r = db.FindUnitCase(c, u.upper())
         elif kind == "CheckValueForCategory":
@@ -221,7 +221,7 @@ def run_query(db, q):
             plain = ObtainQuantity(u, c) if "u,c," in kind else ObtainQuantity(u)
             r = [qq, plain, qq == plain, Scalar(x, u).GetQuantity(), Scalar(c, x, u) == Scalar(qq, x), repr(Scalar(x, u))]
         elif kind == "GetUnits()/GetInfos()":
-            r = [sorted(db.GetUnits()), sorted(i.unit for i in db.GetInfos()), sorted(db.GetUnitNames()), sorted(db.GetQuantityTypes())]
+            r = [sorted(db.GetUnits()), sorted(i.unit for i in db.GetInfos()), sorted(db.GetUnitNames(db.GetCategoryQuantityType(c))), sorted(db.GetQuantityTypes())]
         elif kind == "GetInfo":
             i = db.GetInfo(db.GetCategoryQuantityType(c), u)
             i2 = db.GetInfo(c, v)
@@ -325,7 +325,15 @@ def history(ctx, r, n_steps, base="empty", fresh_cache=None):
                 {"query": list(q), "warm": ow, "fresh": of, "registrations_so_far": len(regs), "history_tail": hist[-8:]}, replay=case,
             )  # fmt: skip
         ctx.count("query outcome %s" % (ow[0] if ow[0] != "exc" else "exc:" + ow[1]))
+        KIND_OK.setdefault(q[0], 0)
+        if ow[0] == "ok":
+            KIND_OK[q[0]] += 1
+        elif ow[1].startswith("other"):
+            KIND_ODD[q[0]] = ow[1]
     return hist
+
+
+KIND_OK, KIND_ODD = {}, {}
 
 
 def run(ctx):
@@ -358,6 +366,11 @@ def run(ctx):
     from .. import suite_workload
 
     suite_workload.run(ctx, "C15")
+    # a query kind that never once succeeded compares two identical failures - which is also what a mistake in the
+    # kind itself looks like: named in the evidence
+    dead = sorted(k for k, n_ok in KIND_OK.items() if n_ok == 0)
+    ctx.inconclusive_if(bool(dead), "query kinds that never succeeded (a mistake in the kind itself?): %s" % dead[:6])
+    ctx.notes["query_kinds"] = {"asked": len(KIND_OK), "never_succeeded": dead, "kinds_with_an_exception_outside_the_families": dict(sorted(KIND_ODD.items()))}
     ctx.inconclusive_if(ctx.counters.get("registrations accepted", 0) == 0 or ctx.counters.get("query outcome ok", 0) < 100, "too few accepted registrations or successful queries")
 
 
